@@ -40,6 +40,7 @@ FORM_INDEPENDENT = [
     r"^C14\.R2 ",  # probes covering every byte value
     r"^C14\.R4 .*:memo$",
     r"^C15\.R2 ",  # freshness facts on every accepting path; nofollow; running max
+    r"^C15\.R4 ",  # publication typestate: what is opened for writing, what is renamed onto what, in which order
     r"^C16\.R2 ",  # open modes / flag words folded under each flag value
     r"^C17\.R2 ",  # value flow
     r"^C17\.R3 .*:reads-files$",
